@@ -73,6 +73,10 @@ pub struct KCfg {
     /// (REGISTER_FILES_UPDATE) is refused; the slot stays in use, which is
     /// then not a10's doing.
     pub p_sync_direct_close_refused: u32,
+    /// The scenario uses pool buffers of one ring in requests of another on
+    /// purpose: a request naming a group its ring does not know is expected
+    /// (it ends with ENOBUFS) instead of a sign of a wrong group id.
+    pub foreign_groups: bool,
     /// SYNC_CANCEL lets ops finish instead of cancelling, percent.
     pub p_sync_cancel_finish: u32,
     /// Percent chance IORING_OP_PIPE is "not supported" (EINVAL): a10 falls
@@ -108,6 +112,7 @@ impl Default for KCfg {
             p_notif_survives: 0,
             old_kernel: false,
             p_sync_direct_close_refused: 0,
+            foreign_groups: false,
             p_sync_cancel_finish: 0,
             p_pipe_einval: 0,
             pool_pick_any: false,
@@ -395,6 +400,10 @@ pub struct Kernel {
     /// Requests of these harness operations never complete on their own (a
     /// read from an empty pipe): only cancellation ends them.
     pub silent_by_op: Vec<u32>,
+    /// Harness operations on which a builder method was called after the first
+    /// poll: if that lands while a restart waits for queue space the library
+    /// accepts it, and the re-issued request legitimately differs.
+    pub late_builder_ops: Vec<u32>,
     /// Kernel waits (blocking part of io_uring_enter) of multi-threaded
     /// runs: (thread, start stamp, end stamp, expired).
     pub wait_log: Vec<(usize, u64, u64, bool)>,
@@ -416,6 +425,10 @@ pub static POISON_ADDR: AtomicU32 = AtomicU32::new(0);
 
 pub fn set_cur(op: u32, during: During) -> (u32, During) {
     CUR_OP.with(|c| c.replace((op, during)))
+}
+
+pub fn cur_op() -> u32 {
+    CUR_OP.with(std::cell::Cell::get).0
 }
 
 pub fn with<T>(f: impl FnOnce(&mut Kernel) -> T) -> T {
@@ -476,6 +489,7 @@ pub fn reset(cfg: KCfg) {
             survivor_blocks: Vec::new(),
             survivor_ops: 0,
             silent_by_op: Vec::new(),
+            late_builder_ops: Vec::new(),
             wait_log: Vec::new(),
         });
         SEQ.store(0, Ordering::Release);
